@@ -436,6 +436,23 @@ fn programs(family: &str) -> Vec<(String, Outcome)> {
             p(&st("    x := B { a: 1, b: \"s\" }\n"), Outcome::Reject);
             p(&st("    x := X { a: 1 }\n"), Outcome::Reject);
         }
+        "rets" => {
+            // every value a function returns (by `ret` or as the value of its body) has the declared return type
+            let f = |body: &str, ty: &str| format!("f :: fn a: int -> {} do\n{}end\nstart :: fn do\n    x := f(3)\nend\n", ty, body);
+            p(&f("    ret a\n", "int"), Outcome::Accept);
+            p(&f("    a\n", "int"), Outcome::Accept);
+            p(&f("    ret \"s\"\n", "int"), Outcome::Reject);
+            p(&f("    \"s\"\n", "int"), Outcome::Reject);
+            p(&f("    loop a > 10 do\n        ret a\n    end\n    a + 1\n", "int"), Outcome::Accept);
+            p(&f("    loop a > 10 do\n        ret a\n    end\n    \"small\"\n", "int"), Outcome::Reject);
+            p(&f("    loop a > 10 do\n        ret \"big\"\n    end\n    a\n", "int"), Outcome::Reject);
+            p(&f("    if a > 10 do\n        ret 1\n    else do\n        ret 2\n    end\n    \"never\"\n", "int"), Outcome::Reject);
+            p(&f("    if a > 10 do\n        ret 1\n    else do\n        ret 2.0\n    end\n", "int"), Outcome::Reject);
+            p(&f("    loop a > 10 do\n        ret 1.0\n    end\n    2.0\n", "float"), Outcome::Accept);
+            p(&f("    loop a > 10 do\n        ret 1.0\n    end\n    2\n", "float"), Outcome::Reject);
+            p("f :: fn a: int do\n    ret 1\nend\nstart :: fn do\n    f(3)\nend\n", Outcome::Reject);
+            p("f :: fn a: int do\n    ret\nend\nstart :: fn do\n    f(3)\nend\n", Outcome::Accept);
+        }
         "start" => {
             // a program needs a global `start` in the MAIN file
             let other_with = "//==file other.sy\nstart :: fn do\n    print(1)\nend\n";
